@@ -38,6 +38,7 @@ type Cycle struct {
 	Burst      int    `json:"burst"`                // messages per goroutine (selfkill / close end after the burst)
 	Size       int    `json:"size"`                 // payload size
 	Pin        bool   `json:"pin,omitempty"`        // the ids of this life carry the current minute as their time (lives that follow each other quickly then share the second: nothing else may make two ids equal)
+	NoRead     bool   `json:"noread,omitempty"`     // nobody reads history between this life and the next one (what was acknowledged is checked after a later life)
 	ReadStores bool   `json:"readstores,omitempty"` // the fresh process that reads history afterwards first stores one more message (a publish arrives before the first history request)
 }
 
@@ -48,7 +49,12 @@ type Case struct {
 
 func genCase(t *rapid.T) Case {
 	var c Case
-	for i, n := 0, rapid.IntRange(2, 5).Draw(t, "cycles"); i < n; i++ {
+	n := rapid.IntRange(2, 5).Draw(t, "cycles")
+	killRun := rapid.IntRange(0, 2).Draw(t, "killrun") == 0 // several lives in a row end in a kill before anybody reads
+	if killRun {
+		n = rapid.IntRange(4, 6).Draw(t, "runcycles")
+	}
+	for i := 0; i < n; i++ {
 		cy := Cycle{End: rapid.SampledFrom([]string{"kill-ms", "kill-ms", "kill-acks", "selfkill", "selfkill", "close", "close-busy"}).Draw(t, "end"), ReadStores: rapid.IntRange(0, 2).Draw(t, "readstores") == 0, Pin: rapid.IntRange(0, 2).Draw(t, "pin") == 0,
 			Goroutines: rapid.SampledFrom([]int{1, 1, 4, 16, 64}).Draw(t, "g"), Burst: rapid.SampledFrom([]int{1, 5, 30, 100}).Draw(t, "burst"),
 			Size: rapid.SampledFrom([]int{0, 8, 8, 200, 5000}).Draw(t, "size")}
@@ -57,6 +63,14 @@ func genCase(t *rapid.T) Case {
 			cy.Param = rapid.SampledFrom([]int{0, 1, 5, 20, 60, 150}).Draw(t, "ms")
 		case "kill-acks", "close-busy":
 			cy.Param = rapid.SampledFrom([]int{1, 2, 10, 50, 300}).Draw(t, "acks")
+		}
+		if killRun && i < n-1 {
+			cy.NoRead = true
+			if cy.End == "close" || cy.End == "close-busy" {
+				cy.End, cy.Param = "kill-acks", rapid.SampledFrom([]int{1, 2, 10}).Draw(t, "runacks")
+			}
+		} else if !killRun && i < n-1 {
+			cy.NoRead = rapid.IntRange(0, 3).Draw(t, "noread") == 0
 		}
 		c.Cycles = append(c.Cycles, cy)
 	}
@@ -336,6 +350,10 @@ func run(c Case) vkit.Result {
 			nontrivial = true
 		}
 		labels["end-"+cy.End] = true
+		if cy.NoRead && ci < len(c.Cycles)-1 {
+			labels["next-life-follows-unread"] = true
+			continue
+		}
 		// a fresh process reopens the directory and pages through history
 		rd := spawn(plan{Dir: dir, Mode: "read", Upto: next, Cycle: cy})
 		var rerr bytes.Buffer
